@@ -8,13 +8,17 @@ from s3tlint.ir import read_sources
 from s3tlint.rename import body_digest, class_attrs
 
 src = read_sources(sys.argv[1] if len(sys.argv) > 1 else '/repo')
-funcs, attrs = [], []
+funcs, attrs, consts = [], [], []
 for rel in sorted(src):
     mod = os.path.splitext(os.path.basename(rel))[0]
     tree = ast.parse(src[rel])
 
     def visit(owner, prefix):
         for n in owner.body:
+            if isinstance(n, (ast.Assign, ast.AnnAssign)):
+                for t in (n.targets if isinstance(n, ast.Assign) else [n.target]):
+                    if isinstance(t, ast.Name):
+                        consts.append(f'{prefix}.{t.id}')
             if isinstance(n, (ast.FunctionDef, ast.AsyncFunctionDef)):
                 funcs.append(f'{prefix}.{n.name} {body_digest(n)}')
             elif isinstance(n, ast.ClassDef):
@@ -29,4 +33,5 @@ for rel in sorted(src):
 d = os.path.join(os.path.dirname(os.path.dirname(os.path.abspath(__file__))), 's3tlint')
 open(os.path.join(d, 'known_functions.txt'), 'w').write('\n'.join(funcs) + '\n')
 open(os.path.join(d, 'known_attrs.txt'), 'w').write('\n'.join(attrs) + '\n')
-print(len(funcs), 'functions,', len(attrs), 'attributes')
+open(os.path.join(d, 'known_consts.txt'), 'w').write('\n'.join(sorted(set(consts))) + '\n')
+print(len(funcs), 'functions,', len(attrs), 'attributes,', len(set(consts)), 'module/class-level names')
